@@ -52,7 +52,8 @@ def patches_for(prop):
             except Exception:
                 continue
             if meta.get("property") == prop or prop in meta.get("checks_reporting_it", []):
-                out.append(("seeded/" + d, pp, tuple(meta.get("features", []))))
+                out.append(("seeded/" + d, pp, tuple(meta.get("features", [])) +
+                            (("declined",) if meta.get("accepted_limitation") and meta.get("property") == prop else ())))
     return out
 
 
@@ -89,11 +90,15 @@ def teeth(ctx, prop):
         for f in futs:
             res.append(f.result())
     caught = [n for n, v, w in res if v == "caught"]
-    missed = [n for n, v, w in res if v == "MISSED" or v.startswith("broken")]
+    declined_names = set(name for name, patch, feats in ps if "declined" in feats)
+    declined = [n for n, v, w in res if v == "MISSED" and n in declined_names]      # documented limits (DESIGN 13.14), still listed
+    missed = [n for n, v, w in res if (v == "MISSED" or v.startswith("broken")) and n not in declined]
     skipped = [n for n, v, w in res if v.startswith("skipped")]
+    for n in declined:
+        print("TEETH-DECLINED property=%s patch=%s (a documented limit of the technique, see its meta.json)" % (prop, n))
     for n in missed:
         print("TEETH-MISS property=%s patch=%s (recorded in the evidence; not a property verdict)" % (prop, n))
-    ctx.teeth = {"applied": len(res) - len(skipped), "caught": len(caught), "missed": missed, "skipped": skipped,
+    ctx.teeth = {"applied": len(res) - len(skipped), "caught": len(caught), "missed": missed, "declined": declined, "skipped": skipped,
                  "detail": {n: (v + (": " + w if w else ""))[:240] for n, v, w in res}}
 
 
